@@ -26,6 +26,8 @@ TU = "scriptplan/_cython/time_utils_cy.pyx"
 MP = "scriptplan/parser/macro_processor.py"
 
 MUTANTS = [
+    # ------------------------------------------------------------------ revert of repaired defect F54 (C15)
+    ("c15_macros_scan_comments", "C15", [(MP, "        content = strip_comments(content)\n\n", "")]),
     # ------------------------------------------------------------------ reverts of repaired defects F52, F53 (C17)
     ("c17_date_to_idx_truncates", "C17", [(SB, "        idx = math.floor(diff / self.resolution)", "        idx = int(diff / self.resolution)")]),
     ("c17_zero_length_interval_reported", "C17", [(SB, "                        if start < current_idx:\n                            intervals.append(", "                        if True:\n                            intervals.append(")]),
